@@ -30,7 +30,7 @@ from ..ref import corr as refc
 
 ID = 'C14'
 LEVEL = 'exploration'
-DECIDING = ['mutation_calls_checked', 'timeslices_judged', 'entries_compared', 'index_map_calls', 'repeat_calls_compared', 'hardening_scenarios', 'held_results_checked',
+DECIDING = ['rejections_judged', 'correlators_with_zero_valued_entries', 'mutation_calls_checked', 'timeslices_judged', 'entries_compared', 'index_map_calls', 'repeat_calls_compared', 'hardening_scenarios', 'held_results_checked',
             'tap:Corr.__add__', 'tap:Corr.__rtruediv__', 'tap:Corr.projected', 'tap:Corr.__repr__', 'tap:Corr.roll']
 RULE = ('cases: correlators with T=2..16 (matrix content: mostly T<=8, 15% up to 16), N=1..3, real (Obs) or complex (CObs) content on 1-2 replicas with strided / gapped '
         'configuration lists, undefined timeslices of kind none / padding (constructor argument) / one interior / random set; '
@@ -591,6 +591,8 @@ def make_corr(ctx, rng, T, N=1, content='real', mask='none', layout=None, values
             c.set_prange([a, int(rng.integers(a, T))])
         if rew:
             ctx.count('reweighted_correlators')
+        if N == 1 and content == 'real':
+            ctx.equal(c.reweighted, bool(rew), 'state:reweighted', 'flag of the correlator = flag of its entries')
         if content == 'real' and rng.random() < (0.2 if N == 1 else 0.06):
             c.gamma_method(S=float(rng.choice([1.0, 3.0])))      # stored analysis state
             ctx.count('analysed_correlators')
@@ -1726,8 +1728,10 @@ def hard_near_symmetric(ctx, rng, mask, k=0):
                 if j > i:
                     # same central value up to `level`, different fluctuations
                     if only_fluctuations_differ:
-                        d = lay.obs(rng, 0.0, rel=0.0)            # mean ~ 0, fluctuations 1e-3
-                        a[j, i] = a[i, j] + (d - d.value) * (level * sc * 1e3)
+                        # same central value; the fluctuations differ by `level` times fluctuations of the same size
+                        # (an independent observable generated like a[i, j], minus its mean)
+                        d = lay.obs(rng, a[i, j].value)
+                        a[j, i] = a[i, j] + (d - d.value) * level
                     else:
                         a[j, i] = a[i, j] * (1.0 + level)
         mats.append(a)
@@ -1745,9 +1749,264 @@ def hard_near_symmetric(ctx, rng, mask, k=0):
     ctx.cell('hard', 'near-symmetric', 'scale=%g' % sc, 'level=%g' % level)
 
 
+def must_reject(ctx, name, fn, types, keep=()):
+    """a documented rejection: the call must raise one of `types`; the objects in keep must be unchanged afterwards"""
+    ctx.count('rejections_judged')
+    ctx.count('rejection:' + name)
+    d0 = [any_digest(k) for k in keep]
+    ctx.ev()
+    try:
+        r = fn()
+    except types:
+        pass
+    except Exception as e:
+        ctx.violation('rejection:%s:raises-%s' % (name, type(e).__name__), {'message': str(e)[:200], 'expected': [t.__name__ for t in types]})
+    else:
+        ctx.violation('rejection:%s:accepted' % name, {'returned': repr(r)[:200]})
+    ctx.ev()
+    if [any_digest(k) for k in keep] != d0:
+        ctx.violation('rejection:%s:argument-changed' % name, {})
+
+
+def hard_rejections(ctx, rng, mask):
+    """checklist 19: every documented rejection of the constructor, the arithmetic and the index maps is provoked and must raise"""
+    T = 2 * int(rng.integers(2, 5))
+    lay = Layout(rng)
+    A = make_corr(ctx, rng, T, 1, 'real', mask, lay)
+    O = make_corr(ctx, rng, T + 1, 1, 'real', mask, lay)            # odd extent
+    G = make_corr(ctx, rng, T, 2, 'real', mask, lay)
+    G3 = make_corr(ctx, rng, T, 3, 'real', mask, lay)
+    y = lay.obs(rng, 1.3)
+    VE, TE = (ValueError,), (TypeError,)
+
+    def arr2(rows):
+        a = np.empty((len(rows), len(rows[0])), dtype=object)
+        for i, r in enumerate(rows):
+            for j, x in enumerate(r):
+                a[i, j] = x
+        return a
+    obs3 = np.empty((T, 2, 3), dtype=object)
+    obs4 = np.empty((2, 2, 2, 2), dtype=object)
+    for idx_ in np.ndindex(obs3.shape):
+        obs3[idx_] = y
+    for idx_ in np.ndindex(obs4.shape):
+        obs4[idx_] = y
+    m23 = np.empty((2, 3), dtype=object)
+    m22 = np.empty((2, 2), dtype=object)
+    m33 = np.empty((3, 3), dtype=object)
+    for m in (m23, m22, m33):
+        for idx_ in np.ndindex(m.shape):
+            m[idx_] = y
+    # constructor
+    must_reject(ctx, 'Corr(2-d array not square)', lambda: PE.Corr(arr2([[A, A, A], [A, A, A]])), VE)
+    must_reject(ctx, 'Corr(2-d array of non-correlators)', lambda: PE.Corr(arr2([[A, y], [y, A]])), VE)
+    must_reject(ctx, 'Corr(2-d array of matrix correlators)', lambda: PE.Corr(arr2([[G, G], [G, G]])), VE)
+    must_reject(ctx, 'Corr(2-d array, different T)', lambda: PE.Corr(arr2([[A, O], [O, A]])), VE)
+    must_reject(ctx, 'Corr(3-d array not square)', lambda: PE.Corr(obs3), VE)
+    must_reject(ctx, 'Corr(4-d array)', lambda: PE.Corr(obs4), VE)
+    must_reject(ctx, 'Corr(list of non-square matrices)', lambda: PE.Corr([m23, m23, None]), VE)
+    must_reject(ctx, 'Corr(list of matrices of different shape)', lambda: PE.Corr([m22, None, m33]), VE)
+    must_reject(ctx, 'Corr(wrong container)', lambda: PE.Corr({'a': y}), TE)
+    must_reject(ctx, 'Corr(list of wrong items)', lambda: PE.Corr([y, 1.0, y]), TE)
+    # reweighted flag that differs between the entries of a matrix correlator
+    Am = make_corr(ctx, rng, 3, 1, 'real', 'none', lay, decorate=False)
+    ctx.equal(Am.reweighted, False, 'state:reweighted', 'no entry reweighted')
+    for e in Am.content:
+        e[0].reweighted = True
+    ctx.equal(Am.reweighted, True, 'state:reweighted', 'every entry reweighted')
+    Am.content[1][0].reweighted = False
+    must_reject(ctx, 'reweighted(mixed flags)', lambda: Am.reweighted, (Exception,))
+    try:
+        G.reweighted
+        ctx.count('reweighted_property_of_matrix_correlator_returns')
+    except AttributeError:
+        ctx.count('reweighted_property_of_matrix_correlator_raises_AttributeError')      # observation, outside the statement of C14
+    must_reject(ctx, 'show(N>1)', lambda: G.show(), VE, [G])
+    must_reject(ctx, 'spaghetti_plot(N>1)', lambda: G.spaghetti_plot(), VE, [G])
+    must_reject(ctx, 'prune(N=1)', lambda: A.prune(1), VE, [A])
+    must_reject(ctx, 'GEVP(N=1)', lambda: A.GEVP(1), VE, [A])
+    # index maps on the wrong kind of correlator
+    v = np.array([1.0, 2.0])
+    must_reject(ctx, 'projected(N=1)', lambda: A.projected(v), VE, [A, v])
+    must_reject(ctx, 'projected(list of wrong length, array)', lambda: G.projected([v] * (T - 1), v), VE, [G])
+    must_reject(ctx, 'projected(array, list of wrong length)', lambda: G.projected(v, [v] * (T + 1)), VE, [G])
+    must_reject(ctx, 'projected(vector of wrong shape)', lambda: G.projected(np.array([1.0, 2.0, 3.0])), VE, [G])
+    must_reject(ctx, 'item(N=1)', lambda: A.item(0, 0), VE, [A])
+    must_reject(ctx, 'plottable(N>1)', lambda: G.plottable(), VE, [G])
+    must_reject(ctx, 'symmetric(N>1)', lambda: G.symmetric(), VE, [G])
+    must_reject(ctx, 'symmetric(odd T)', lambda: O.symmetric(), VE, [O])
+    must_reject(ctx, 'anti_symmetric(N>1)', lambda: G.anti_symmetric(), TE, [G])
+    must_reject(ctx, 'anti_symmetric(odd T)', lambda: O.anti_symmetric(), VE, [O])
+    must_reject(ctx, 'is_matrix_symmetric(N=1)', lambda: A.is_matrix_symmetric(), TE, [A])
+    must_reject(ctx, 'trace(N=1)', lambda: A.trace(), VE, [A])
+    must_reject(ctx, 'matrix_symmetric(N=1)', lambda: A.matrix_symmetric(), VE, [A])
+    must_reject(ctx, 'Hankel(N>1)', lambda: G.Hankel(2), (NotImplementedError,), [G])
+    must_reject(ctx, 'correlate(N>1)', lambda: G.correlate(y), VE, [G, y])
+    must_reject(ctx, 'correlate(number)', lambda: A.correlate(2.0), TE, [A])
+    must_reject(ctx, 'reweight(N>1)', lambda: G.reweight(y), (Exception,), [G, y])
+    must_reject(ctx, 'T_symmetry(N>1)', lambda: G.T_symmetry(G), (Exception,), [G])
+    must_reject(ctx, 'T_symmetry(partner not a correlator)', lambda: A.T_symmetry(y), (Exception,), [A, y])
+    for par in (2, 0, -2, 0.5):
+        must_reject(ctx, 'T_symmetry(parity not +-1)', lambda par=par: A.T_symmetry(A, par), (Exception,), [A])
+    # stored plateau range
+    d0 = any_digest(A)
+    must_reject(ctx, 'set_prange(three entries)', lambda: A.set_prange([0, 1, 2]), VE, [A])
+    must_reject(ctx, 'set_prange(float entries)', lambda: A.set_prange([0.0, 1.0]), TE, [A])
+    must_reject(ctx, 'set_prange(reversed)', lambda: A.set_prange([2, 1]), VE, [A])
+    must_reject(ctx, 'set_prange(beyond T)', lambda: A.set_prange([0, T + 1]), VE, [A])
+    must_reject(ctx, 'set_prange(negative)', lambda: A.set_prange([-1, 1]), VE, [A])
+    # arithmetic
+    must_reject(ctx, '+(Corr,Corr) different T', lambda: A + O, VE, [A, O])
+    must_reject(ctx, '+(Corr,Corr) different N', lambda: G + G3, VE, [G, G3])
+    must_reject(ctx, '+(Corr,Corr) N=1 and N>1', lambda: A + G, VE, [A, G])
+    must_reject(ctx, '+(Corr,ndarray of wrong length)', lambda: A + np.ones(T + 1), VE, [A])
+    must_reject(ctx, '+(Corr,str)', lambda: A + 'x', TE, [A])
+    must_reject(ctx, '*(Corr,Corr) different N>1', lambda: G * G3, VE, [G, G3])
+    must_reject(ctx, '*(Corr,Corr) different T', lambda: A * O, VE, [A, O])
+    must_reject(ctx, '*(Corr,ndarray of wrong length)', lambda: A * np.ones(T - 1), VE, [A])
+    must_reject(ctx, '*(Corr,str)', lambda: A * 'x', TE, [A])
+    must_reject(ctx, '/(Corr,Corr) different N>1', lambda: G / G3, VE, [G, G3])
+    must_reject(ctx, '/(Corr,Corr) different T', lambda: A / O, VE, [A, O])
+    must_reject(ctx, '/(Corr,ndarray of wrong length)', lambda: A / np.ones(T + 2), VE, [A])
+    must_reject(ctx, '/(Corr,str)', lambda: A / 'x', TE, [A])
+    must_reject(ctx, '/(Corr,0)', lambda: A / 0, VE, [A])
+    must_reject(ctx, '/(Corr,0.0)', lambda: A / 0.0, VE, [A])
+    zo = y - y.value                                              # central value exactly 0, fluctuations not
+    must_reject(ctx, '/(Corr,Obs with value 0)', lambda: A / zo, VE, [A, zo])
+    must_reject(ctx, '/(Corr,CObs zero)', lambda: A / PE.CObs(0.0, 0.0), VE, [A])
+    must_reject(ctx, '**(Corr,str)', lambda: A ** 'x', TE, [A])
+    must_reject(ctx, '@(Corr,vector)', lambda: G @ np.ones(2), VE, [G])
+    must_reject(ctx, '@(Corr,non-square matrix)', lambda: G @ np.ones((2, 3)), VE, [G])
+    must_reject(ctx, '@(Corr,matrix of other dimension)', lambda: G @ np.ones((3, 3)), VE, [G])
+    must_reject(ctx, '@(Corr,Corr) different N', lambda: G @ G3, VE, [G, G3])
+    must_reject(ctx, '@(Corr,number)', lambda: G @ 3.0, TE, [G])
+    must_reject(ctx, '@(vector,Corr)', lambda: np.ones(2) @ G, VE, [G])
+    must_reject(ctx, '@(matrix of other dimension,Corr)', lambda: np.ones((3, 3)) @ G, VE, [G])
+    must_reject(ctx, '@(number,Corr)', lambda: 3.0 @ G, TE, [G])
+    must_reject(ctx, 'dump(unknown datatype)', lambda: A.dump('x', datatype='yaml'), VE, [A])
+    ctx.ev()
+    if any_digest(A) != d0:
+        ctx.violation('rejection:operand-changed-by-rejected-calls', {})
+    # what a matrix correlator prints: the header only
+    G.tag = None
+    ctx.equal(repr(G), 'Corr T=%d N=%d\n' % (G.T, G.N), 'index:__repr__(N>1)', 'header only')
+    # == with something that is not a correlator acts entry by entry on the content
+    if not has_undefined(to_model(A)):
+        same = A == list(A.content)
+        ctx.equal(bool(np.all(same)), True, 'index:__eq__(list of the content)', 'all entries equal')
+        other = list(A.content)
+        other[T - 1] = np.array([y + 100.0])
+        diff = A == other
+        ctx.equal([bool(x) for x in np.asarray(diff).ravel()], [True] * (T - 1) + [False], 'index:__eq__(list with one other entry)', 'last entry differs')
+    # dump without a path argument writes next to the given file name; the file reads back as the same correlator
+    with tempfile.TemporaryDirectory(prefix='vmon_c14_') as d:
+        fn = os.path.join(d, 'corr')
+        try:
+            A.dump(fn, datatype='json.gz')
+            B = PE.input.json.load_json(fn, verbose=False)
+            ctx.equal(refc.pattern(to_model(B)), refc.pattern(to_model(A)), 'dump:json-without-path', 'pattern after reading back')
+        except Exception as e:
+            report_raise(ctx, e, 'dump', 'dump(json.gz, no path)', None, True, context_of(to_model(A)))
+    ctx.cell('hard', 'rejections', mask)
+
+
+def zero_valued(o):
+    """an observable with the fluctuations of o and central value exactly 0.0"""
+    return o - o.value
+
+
+def hard_degenerate(ctx, rng, mask):
+    """checklist 16-18: central values exactly 0.0 with fluctuations, operands with exactly equal means on other data,
+    copies the library's == / hash cannot tell from the original"""
+    T = 2 * int(rng.integers(2, 7))
+    lay = Layout(rng)
+    defined, _ = none_mask(rng, T, mask if mask != 'padding' else 'many')
+    vals = profile(rng, T, 'mixed')
+    zeros = [bool(rng.random() < 0.35) for _ in range(T)]
+    ent = [None if not defined[t] else (zero_valued(lay.obs(rng, 1.0)) if zeros[t] else lay.obs(rng, vals[t])) for t in range(T)]
+    A = PE.Corr(list(ent))
+    MA = to_model(A)
+    y = lay.obs(rng, 1.7)
+    hp = hints_per_t(MA, y)
+    hp = [(max(v, 1.0), max(d, 1e-3)) for v, d in hp]
+    ctx.count('correlators_with_zero_valued_entries')
+    for op, order in (('+', 'L'), ('-', 'R'), ('*', 'L'), ('*', 'R'), ('/', 'L')):
+        left, right = (A, y) if order == 'L' else (y, A)
+        judged_call(ctx, rng, '%s(%s,%s) zero-valued entries' % (op, type_label(left), type_label(right)), DUNDER[(op, order)],
+                    lambda op=op, left=left, right=right: OPS[op](left, right), [left, right],
+                    refc.binary_scalar(OPS[op], MA, y, scalar_left=(order == 'R'), isnan=isnan_scalar), hints=hp)
+    judged_call(ctx, rng, '*(Corr,Corr) zero-valued entries', '__mul__', lambda: A * A, [A], refc.binary(operator.mul, MA, MA, isnan_scalar), hints=hp)
+    judged_call(ctx, rng, '**(Corr,int) zero-valued entries', '__pow__', lambda: A ** 2, [A], refc.binary_scalar(operator.pow, MA, 2, isnan=isnan_scalar), hints=hp)
+    for fname in ('sin', 'tanh', 'arctan', 'arcsinh', 'exp', 'cos', 'abs', 'neg'):
+        sf = abs if fname == 'abs' else (operator.neg if fname == 'neg' else getattr(np, fname))
+        judged_call(ctx, rng, fname + ' zero-valued entries', fname, lambda sf=sf: sf(A), [A], refc.unary(sf, MA, isnan_scalar), hints=hp)
+    # 0 / 0 is not a number: the timeslice becomes undefined; 0 / x is a zero-valued observable
+    ent2 = [None if not defined[t] else (zero_valued(lay.obs(rng, 1.0)) if (zeros[t] and rng.random() < 0.7) else lay.obs(rng, 1.0 + rng.uniform(0.2, 2.0)))
+            for t in range(T)]
+    ok2 = [e is None or e.value != 0.0 or zeros[t] for t, e in enumerate(ent2)]
+    B = PE.Corr(list(ent2))
+    MB = to_model(B)
+    # only 0/0 and x/y, 0/y: a finite number over an exact zero is infinite, which is outside what the property speaks about
+    if all(ok2) and all(not (zeros[t] is False and e is not None and e.value == 0.0) for t, e in enumerate(ent2)):
+        judged_call(ctx, rng, '/(Corr,Corr) zero over zero', '__truediv__', lambda: A / B, [A, B], refc.binary(operator.truediv, MA, MB, isnan_scalar),
+                    hints=[(max(a[0], 1.0), max(a[1], 1e-3)) for a in hints_per_t(MA, MB)])
+        ctx.count('zero_over_zero_divisions')
+    if T % 2 == 0:
+        judged_call(ctx, rng, 'symmetric zero-valued entries', 'symmetric', lambda: A.symmetric(), [A], refc.symmetric(MA), hint=(3.0, 1.0))
+    # operands whose means agree exactly while the data differ
+    C = make_corr(ctx, rng, T, 1, 'real', mask, lay, decorate=False, scale=False)
+    MC = to_model(C)
+    tw = [None if m is None else m[0][0].value + zero_valued(lay.obs(rng, 1.0)) * float(rng.uniform(0.5, 2.0)) for m in MC]
+    D = PE.Corr(list(tw))
+    MD = to_model(D)
+    ctx.count('operands_with_equal_means_on_other_data')
+    hcd = hints_per_t(MC, MD)
+    for op in ('-', '/', '+', '*'):
+        judged_call(ctx, rng, '%s(Corr,Corr) equal means' % op, DUNDER[(op, 'L')], lambda op=op: OPS[op](C, D), [C, D],
+                    refc.binary(OPS[op], MC, MD, isnan_scalar), hints=hcd)
+    R = PE.Corr(list(tw[::-1]))                                    # the time-reversed partner with exactly the means of C
+    MR = to_model(R)
+    for parity in (1, -1):
+        judged_call(ctx, rng, 'T_symmetry equal means', 'T_symmetry', lambda parity=parity: C.T_symmetry(R, parity), [C, R],
+                    refc.T_symmetry(MC, MR, parity), hint=hint_global(MC, MR), context=context_of(MC, MR))
+    # a matrix whose [j,i] entries are copies of [i,j] carrying another tag; and one whose mean values are symmetric while the data are not
+    N = int(rng.integers(2, 4))
+    mats, mats2 = [], []
+    for t in range(T):
+        if not defined[t]:
+            mats.append(None)
+            mats2.append(None)
+            continue
+        a = np.empty((N, N), dtype=object)
+        b = np.empty((N, N), dtype=object)
+        for i in range(N):
+            for j in range(i, N):
+                a[i, j] = lay.obs(rng, float(rng.uniform(0.5, 2.0)))
+                b[i, j] = a[i, j]
+                if j > i:
+                    a[j, i] = copy.deepcopy(a[i, j])
+                    a[j, i].tag = 'copy'
+                    b[j, i] = a[i, j].value + zero_valued(lay.obs(rng, 1.0))
+        mats.append(a)
+        mats2.append(b)
+    G = PE.Corr(list(mats))
+    MG = to_model(G)
+    got = quiet(ctx, lambda: G.is_matrix_symmetric(), 'is_matrix_symmetric')
+    ctx.equal(bool(got), True, 'index:is_matrix_symmetric', 'copies with another tag')
+    judged_call(ctx, rng, 'matrix_symmetric(tagged copies)', 'matrix_symmetric', lambda: G.matrix_symmetric(), [G], refc.matrix_symmetric(MG), hint=hint_global(MG))
+    H = PE.Corr(list(mats2))
+    MH = to_model(H)
+    got = quiet(ctx, lambda: H.is_matrix_symmetric(), 'is_matrix_symmetric')
+    ctx.equal(bool(got), False, 'index:is_matrix_symmetric', 'symmetric mean values, different data')
+    judged_call(ctx, rng, 'matrix_symmetric(symmetric means, different data)', 'matrix_symmetric', lambda: H.matrix_symmetric(), [H],
+                refc.matrix_symmetric(MH), hint=hint_global(MH))
+    judged_call(ctx, rng, 'trace(symmetric means)', 'trace', lambda: H.trace(), [H], refc.trace(MH), hint=hint_global(MH))
+    ctx.cell('hard', 'degenerate', mask)
+
+
 # scenario, cases per kind of undefined set and quick run: the cheap ones often, the ones that make 20-60 judged calls per case less often
 HARD_WEIGHTS = [(hard_same_operand, 13), (hard_same_entry, 10), (hard_held_results, 5), (hard_boundary, 6), (hard_representation, 6),
-                (hard_one_by_one, 13), (hard_near_symmetric, 13)]
+                (hard_one_by_one, 13), (hard_near_symmetric, 13), (hard_rejections, 13), (hard_degenerate, 13)]
 HARD = []
 for _k in range(max(w for _, w in HARD_WEIGHTS)):
     HARD += [(f, _k) for f, w in HARD_WEIGHTS if _k < w]
